@@ -295,7 +295,8 @@ Section Generic.
   Proof.
     unfold Rules.load_res, Rules.ctrls_of. destruct (res =? 0); sel; [discriminate|].
     destruct l as [|x l']; sel.
-    - intros _. rewrite aget_adel_same. repeat split; auto. intros r2 H. apply aget_adel_other. exact H.
+    - destruct (alookup res (raw s)); sel; [|discriminate].
+      intros _. rewrite aget_adel_same. repeat split; auto. intros r2 H. apply aget_adel_other. exact H.
     - destruct (list_eqb (opt_eqb deep_eq) (aget res (raw s)) (x :: l')); sel; [discriminate|].
       intros _. destruct (build (opn s) res (vfilter (x :: l')) (aget res (enforced s))) as [|c cs] eqn:B; sel.
       + rewrite aget_adel_same. repeat split; auto. intros r2 H. apply aget_adel_other. exact H.
@@ -337,25 +338,32 @@ Section Generic.
 
   Lemma load_all_reported s l :
     changed (snd (load_all s l)) = true ->
-    forall res, aget res (reported (fst (load_all s l))) = filter valid (rules_of res (nonnil l)).
+    forall res, aget res (reported (fst (load_all s l)))
+                = match build (opn s) res (filter valid (rules_of res (nonnil l))) (ctrls_of s res) with
+                  | [] => []
+                  | _ => filter (ok res) (filter valid (rules_of res (nonnil l)))
+                  end.
   Proof.
     unfold Rules.load_all. destruct (raw_eqb (raw s) (group l)); cbn; [discriminate|]. intros _ res.
     unfold aget at 1. rewrite alookup_amap_of. rewrite aget_group. unfold Rules.vfilter. rewrite nonnil_map_Some.
     unfold Rules.group. rewrite (akeys_map_keys (fun k => map Some (rules_of k (nonnil l)))). rewrite memZ_dedup.
     destruct (memZ res (map resource (nonnil l))) eqn:E.
-    - destruct (filter valid (rules_of res (nonnil l))); reflexivity.
+    - destruct (filter valid (rules_of res (nonnil l))) as [|v vs]; [reflexivity|].
+      unfold Rules.ctrls_of.
+      destruct (build (opn s) res (v :: vs) (aget res (enforced s))); reflexivity.
     - rewrite rules_of_not_mem by exact E. reflexivity.
   Qed.
 
   Lemma load_res_reported s res l :
     changed (snd (load_res s res l)) = true ->
     (aget res (reported (fst (load_res s res l)))
-       = match build (opn s) res (vfilter l) (ctrls_of s res) with [] => [] | _ => vfilter l end)
+       = match build (opn s) res (vfilter l) (ctrls_of s res) with [] => [] | _ => filter (ok res) (vfilter l) end)
     /\ (forall r2, r2 <> res -> aget r2 (reported (fst (load_res s res l))) = aget r2 (reported s)).
   Proof.
     unfold Rules.load_res, Rules.ctrls_of. destruct (res =? 0); sel; [discriminate|].
     destruct l as [|x l']; sel.
-    - intros _. rewrite aget_adel_same. split; [reflexivity|]. intros r2 H. apply aget_adel_other. exact H.
+    - destruct (alookup res (raw s)); sel; [|discriminate].
+      intros _. rewrite aget_adel_same. split; [reflexivity|]. intros r2 H. apply aget_adel_other. exact H.
     - destruct (list_eqb (opt_eqb deep_eq) (aget res (raw s)) (x :: l')); sel; [discriminate|].
       intros _. destruct (build (opn s) res (vfilter (x :: l')) (aget res (enforced s))) as [|c cs] eqn:B; sel.
       + rewrite aget_adel_same. split; [reflexivity|]. intros r2 H. apply aget_adel_other. exact H.
@@ -384,7 +392,7 @@ Section Generic.
       Forall2 sim (enforced_rules s res) (filter (fun r => valid r && ok res r) (cur res))
       /\ Forall (fun c => supported (c_rule c) = true) (ctrls_of s res)
       /\ (separate_reported q = true ->
-          Forall2 sim (enforced_rules s res) (filter (ok res) (aget res (reported s)))).
+          Forall2 sim (enforced_rules s res) (aget res (reported s))).
 
   Lemma filter_andb {A} (f g : A -> bool) l : filter (fun x => f x && g x) l = filter g (filter f l).
   Proof. induction l as [|x r IH]; cbn; [reflexivity|]. destruct (f x); cbn; [destruct (g x)|]; rewrite ?IH; reflexivity. Qed.
@@ -401,14 +409,14 @@ Section Generic.
       destruct (HI res) as [_ [Hs _]].
       destruct (build_rules (opn s) res (filter valid (rules_of res (nonnil l))) (ctrls_of s res) Hs) as [A B].
       rewrite filter_andb. repeat split; auto.
-      intros _. rewrite (load_all_reported s l Ech). exact A.
+      intros _. rewrite (load_all_reported s l Ech).
+      destruct (build (opn s) res (filter valid (rules_of res (nonnil l))) (ctrls_of s res)) eqn:Bd; [constructor|exact A].
     - destruct (load_res_effective s r l Ech) as [Hc [Ho _]]. destruct (load_res_reported s r l Ech) as [Hr Hro].
       destruct (r =? res) eqn:E.
       + assert (r = res) by lia. subst r. unfold Rules.enforced_rules. rewrite Hc. destruct (HI res) as [_ [Hs _]].
         destruct (build_rules (opn s) res (vfilter l) (ctrls_of s res) Hs) as [A B].
         rewrite filter_andb. repeat split; auto.
-        intros _. rewrite Hr. destruct (build (opn s) res (vfilter l) (ctrls_of s res)) eqn:Bd; [|exact A].
-        cbn in A. inversion A as [X Y|]. cbn. constructor.
+        intros _. rewrite Hr. destruct (build (opn s) res (vfilter l) (ctrls_of s res)) eqn:Bd; [constructor|exact A].
       + assert (res <> r) by lia. unfold Rules.enforced_rules. rewrite (Ho res) by assumption.
         destruct (HI res) as [A [B C]]. repeat split; auto. intros Hq. rewrite Hro by assumption. auto.
   Qed.
@@ -441,7 +449,7 @@ Section Generic.
   Lemma getters_eq_enforced_separate ops res :
     separate_reported q = true ->
     let s := fst (run init ops) in
-    Forall2 sim (enforced_rules s res) (filter (ok res) (get_res s res)).
+    Forall2 sim (enforced_rules s res) (get_res s res).
   Proof.
     intros Hq s. unfold Rules.get_res. rewrite Hq.
     exact (proj2 (proj2 (run_inv ops init _ inv_init res)) Hq).
@@ -522,10 +530,17 @@ Section Generic.
   Qed.
 
   Lemma identical_reload_res s res l :
-    l <> [] -> refl_on l -> load_res (fst (load_res s res l)) res l = (fst (load_res s res l), r_unchanged) \/ res = 0.
+    refl_on l -> load_res (fst (load_res s res l)) res l = (fst (load_res s res l), r_unchanged) \/ res = 0.
   Proof.
-    intros Hne H. destruct (res =? 0) eqn:E0; [right; lia|left].
-    destruct l as [|x l']; [congruence|].
+    intros H. destruct (res =? 0) eqn:E0; [right; lia|left].
+    destruct l as [|x l'].
+    { (* clearing twice: the second clear finds nothing cached *)
+      destruct (alookup res (raw s)) eqn:E.
+      - assert (X : alookup res (raw (fst (load_res s res []))) = None)
+          by (unfold Rules.load_res; rewrite E0, E; sel; apply alookup_adel_same).
+        unfold Rules.load_res at 1. rewrite E0, X. reflexivity.
+      - assert (X : load_res s res [] = (s, r_unchanged)) by (unfold Rules.load_res; rewrite E0, E; reflexivity).
+        rewrite X. sel. exact X. }
     destruct (list_eqb (opt_eqb deep_eq) (aget res (raw s)) (x :: l')) eqn:E.
     - assert (X : load_res s res (x :: l') = (s, r_unchanged)) by (unfold Rules.load_res; rewrite E0, E; reflexivity).
       rewrite X. sel. exact X.
@@ -923,7 +938,8 @@ Proof.
     + destruct (opt_eqb out_deep_eq (alookup r (out_raw s)) (Some x)); cbn; [discriminate|].
       destruct (out_valid x); cbn; [|discriminate]. intros _ _.
       destruct (r =? res) eqn:E; [assert (r = res) as -> by lia; apply alookup_aset_same|apply alookup_aset_other; lia].
-    + intros _ _. destruct (r =? res) eqn:E; [assert (r = res) as -> by lia; apply alookup_adel_same|apply alookup_adel_other; lia].
+    + destruct (alookup r (out_raw s)); cbn; [|discriminate].
+      intros _ _. destruct (r =? res) eqn:E; [assert (r = res) as -> by lia; apply alookup_adel_same|apply alookup_adel_other; lia].
 Qed.
 
 Fixpoint out_latest_from (acc : option orule) (hist : list (out_op * result)) (res : Z) : option orule :=
@@ -996,6 +1012,20 @@ Proof.
   - assert (X : alookup res (out_raw (fst (out_load_res s res (Some x)))) = Some x).
     { unfold out_load_res. rewrite E0, E, Hv. cbn. apply alookup_aset_same. }
     unfold out_load_res at 1. rewrite E0, X. cbn. rewrite Hr. reflexivity.
+Qed.
+
+(* clearing a resource twice: the second clear finds nothing cached and reports 'unchanged' *)
+Lemma out_identical_clear_res s res :
+  res <> 0 ->
+  out_load_res (fst (out_load_res s res None)) res None = (fst (out_load_res s res None), r_unchanged).
+Proof.
+  intros Hne. assert (E0 : res =? 0 = false) by lia.
+  destruct (alookup res (out_raw s)) eqn:E.
+  - assert (X : alookup res (out_raw (fst (out_load_res s res None))) = None)
+      by (unfold out_load_res; rewrite E0, E; cbn; apply alookup_adel_same).
+    unfold out_load_res at 1. rewrite E0, X. reflexivity.
+  - assert (X : out_load_res s res None = (s, r_unchanged)) by (unfold out_load_res; rewrite E0, E; reflexivity).
+    rewrite X. cbn. exact X.
 Qed.
 
 Lemma aset_In {A} k (v : A) m kv : In kv (aset k v m) -> kv = (k, v) \/ In kv m.
